@@ -1,7 +1,7 @@
 #!/usr/bin/env python3
 # dev helper: generate a unit and run verus on it, print classified results
 import sys, os
-sys.path.insert(0, os.path.join(os.path.dirname(os.path.abspath(__file__)), "lib"))
+sys.path.insert(0, os.path.join(os.path.dirname(os.path.dirname(os.path.abspath(__file__))), "lib"))
 import vxlib, verusrun
 unit = sys.argv[1]
 g = vxlib.generate(f"{vxlib.VERIF}/contracts/{unit}.vrs", with_mutants="--mutants" in sys.argv)
